@@ -421,6 +421,14 @@ func buildSandbox(root string) error {
 // judgeC03 runs one script. root is "/" inside the chroot child.
 func judgeC03(root string, c c03Case) (string, string) {
 	dest := filepath.Join(root, "p1/p2/dest")
+	if fi, err := os.Lstat(dest); err != nil || !fi.IsDir() {
+		// an earlier case left the destination path missing or as a link: start from a directory again
+		os.Remove(dest)
+		os.Remove(filepath.Join(root, "p1/p2/gone"))
+		if err := os.MkdirAll(dest, 0755); err != nil {
+			return "infra", "dest: " + err.Error()
+		}
+	}
 	// reset dest contents
 	ents, _ := os.ReadDir(dest)
 	for _, e := range ents {
@@ -438,6 +446,22 @@ func judgeC03(root string, c c03Case) (string, string) {
 			return "infra", "prior: " + err.Error()
 		}
 		linkedIn = []string{"f"}
+	}
+	switch c.Prior {
+	case "dest-missing":
+		// the destination path does not exist (removed by a clean-up job, a typo): nothing can be stored, and
+		// nothing is stored anywhere else
+		if err := os.Remove(dest); err != nil {
+			return "infra", "prior: " + err.Error()
+		}
+	case "dest-dangling":
+		// ... or is a link whose target is gone (current -> releases/41)
+		if err := os.Remove(dest); err != nil {
+			return "infra", "prior: " + err.Error()
+		}
+		if err := os.Symlink("gone", dest); err != nil {
+			return "infra", "prior: " + err.Error()
+		}
 	}
 	before, err := outsideState(root, linkedIn...)
 	if err != nil {
@@ -481,6 +505,8 @@ func judgeC03(root string, c c03Case) (string, string) {
 		case "meta-merge-hide-a":
 			// a selector that leaves out the path a (and with it, possibly, the link source of something it selects)
 			opt.MetadataOnly = func(p string, _ *types.Stat) bool { return p != "a" }
+			opt.Merge = true
+		case "merge":
 			opt.Merge = true
 		case "merge-filter-a":
 			// (a filter that hides a directory hides what is below it as well)
@@ -765,8 +791,12 @@ func childC03(args []string) int {
 	// merge receives in which the caller's own selector / filter leaves the path a alone, into destinations where a
 	// is a link to outside: every script of length <=2
 	for _, sc := range c03Scripts(tier, 2) {
-		for _, pr := range []string{"a-symlink-out", "a-chain-out"} {
-			for _, op := range []string{"meta-merge-hide-a", "merge-filter-a"} {
+		for _, pr := range []string{"a-symlink-out", "a-chain-out", "dest-missing", "dest-dangling"} {
+			// (and with a selector that selects everything: a selected directory and what is below it)
+			for _, op := range []string{"meta-merge-hide-a", "merge-filter-a", "meta-merge", "meta", "merge", ""} {
+				if (op == "merge" || op == "") != strings.HasPrefix(pr, "dest-") {
+					continue
+				}
 				i++
 				if i%n != shard || i < start || redundantAfterFin(sc) {
 					continue
